@@ -1,15 +1,21 @@
 #!/bin/bash
-# usage: tools/try_mutant.sh <patch.diff> <ID> [tier]   — applies the patch to /repo, runs the check, reverts /repo
+# usage: tools/try_mutant.sh <patch.diff> <ID> [tier]
+# Runs a check against a scratch worktree of /repo HEAD carrying the patch (VERIF_REPO), so /repo itself is never modified
+# while other checks / agents import it. The worktree is removed afterwards.
 set -u
 P=$(realpath "$1"); ID=$2; TIER=${3:-quick}
-cd /repo || exit 9
-if ! git diff --quiet; then echo "/repo has uncommitted changes"; exit 9; fi
-if ! git apply --3way "$P" 2>/tmp/apply.err; then
-  if ! patch -p1 --dry-run < "$P" >/dev/null 2>&1; then echo "PATCH DOES NOT APPLY: $(head -3 /tmp/apply.err)"; git reset -q; git checkout -q -- . ; exit 8; fi
+WT=/tmp/mutwt_$$
+git -C /repo worktree add -q --detach $WT HEAD || exit 9
+cd $WT
+if ! git apply "$P" 2>/tmp/apply.err; then
+  if ! patch -p1 -s --dry-run < "$P" >/dev/null 2>&1; then echo "PATCH DOES NOT APPLY: $(head -3 /tmp/apply.err)"; cd /; git -C /repo worktree remove --force $WT; exit 8; fi
   patch -p1 -s < "$P"
 fi
 cd /verif
-VERIF_NO_CONFIRM=${VERIF_NO_CONFIRM:-1} ./check $ID $TIER > /tmp/mut_$ID.out 2>&1; rc=$?
-git -C /repo reset -q ; git -C /repo checkout -q -- . ; git -C /repo status --short | grep -v '^??' | head -3
-grep -c "^VIOLATION" /tmp/mut_$ID.out | sed "s/^/violations: /"; grep "^VIOLATION" -A1 /tmp/mut_$ID.out | head -4 | cut -c1-400; tail -1 /tmp/mut_$ID.out | cut -c1-300
+VERIF_REPO=$WT VERIF_NO_CONFIRM=${VERIF_NO_CONFIRM:-1} ./check $ID $TIER > /tmp/mut_$ID.$$.out 2>&1; rc=$?
+git -C /repo worktree remove --force $WT
+grep -c "^VIOLATION" /tmp/mut_$ID.$$.out | sed "s/^/violations: /"; grep "^VIOLATION" -A1 /tmp/mut_$ID.$$.out | head -4 | cut -c1-400; tail -1 /tmp/mut_$ID.$$.out | cut -c1-300
+# evidence written by a mutant run is not evidence of the unchanged tree: restore the committed file
+git -C /verif checkout -q -- evidence/$ID.json 2>/dev/null
+rm -f /tmp/mut_$ID.$$.out
 echo "exit=$rc"
